@@ -28,25 +28,25 @@ def gen_fault(r, seed, p_fault=0.6):
     reject = {}
     for s in simrng.REJECT_SITES:
         if r.random() < 0.3:
-            reject[s] = r.randint(1, 3)
+            reject[s] = r.randint(1, 2 if s == "check_in_b" else 3)
     if not kinds and not reject:
         kinds = [r.choice(simrng.RAND_KINDS)]
     return {"seed": H(seed, "fault"), "rate": r.choice((0.1, 0.3, 0.6, 1.0)), "kinds": kinds,
             "reject": reject, "only": None}
 
 
-def gen_domain(r, rng, want_boundary=None):
+def gen_domain(r, rng, want_boundary=None, allow_tf=True, allow_prod=True, p_param=0.45, max_depth=3):
     """(AST, pspace) of a random in-envelope expression."""
     c = r.random()
-    pvar = "t" if r.random() < 0.45 else None
+    pvar = "t" if r.random() < p_param else None
     p_dep = 0.7 if pvar else 0.0
     if c < 0.12:
         dom = GG.gen_iv(r, "x", pvar, p_dep)
     elif c < 0.2:
         dom = GG.gen_sph(r, "x", pvar, p_dep)
     else:
-        depth = r.choice((0, 0, 1, 1, 1, 2, 2, 3))
-        dom = GG.gen_solid2(r, rng, depth, pvar, p_dep, "x", allow_poly=False)
+        depth = min(max_depth, r.choice((0, 0, 1, 1, 1, 2, 2, 3)))
+        dom = GG.gen_solid2(r, rng, depth, pvar, p_dep, "x", allow_poly=False, allow_tf=allow_tf)
     if pvar and "t" not in G.free_vars(dom):
         pvar = None
     if want_boundary is None:
@@ -57,7 +57,7 @@ def gen_domain(r, rng, want_boundary=None):
         else:
             dom = {"k": "bnd", "d": dom}
     # dependent / independent product with an interval factor
-    c = r.random()
+    c = r.random() if allow_prod else 1.0
     if pvar and c < 0.25:
         dom = {"k": "prod", "a": dom, "b": {"k": "iv", "var": "t", "a": 0.0, "b": 1.0}}
         pvar = None
@@ -101,7 +101,7 @@ def gen_filter(r, rng, dom, prows_tab):
         return None
 
 
-def gen_entry(r, rng, dom, pspace, prows):
+def gen_entry(r, rng, dom, pspace, prows, p_density=0.2):
     k = len(prows)
     bnd = G.is_boundary(dom)
     is_prod = dom["k"] == "prod"
@@ -124,7 +124,7 @@ def gen_entry(r, rng, dom, pspace, prows):
     # rejection-based shapes/filters is random, the samplers raise IndexError -- loud);
     # dependent products with a density (int(d*volume) may be 0 -> raises, volume is a
     # documented 10-point estimate)
-    use_d = density_ok and r.random() < 0.2 and e.get("cls") not in (
+    use_d = density_ok and r.random() < p_density and e.get("cls") not in (
         "Gaussian", "LHS", "AdaptiveThreshold", "AdaptiveRandom")
     if use_d and not is_prod:
         e["d"] = r.choice((0.5, 2.0, 7.5, 20.0, 55.0))
@@ -156,9 +156,28 @@ def gen_entry(r, rng, dom, pspace, prows):
 def gen_case(prop, seed, p_fault=0.6):
     r = rnd(seed, "gen")
     rng = np.random.default_rng(H(seed, "ref") % (2 ** 32))
-    dom, pspace = gen_domain(r, rng)
-    pspace, prows = gen_prows(r, pspace)
-    entry = gen_entry(r, rng, dom, [tuple(p) for p in pspace], prows)
+    if prop == "C06":
+        # boundaries of primitives and of Boolean combinations of primitives, all vertex orders
+        dom, pspace = gen_domain(r, rng, want_boundary=True, allow_tf=False, allow_prod=False)
+        if dom["k"] != "bnd":
+            dom = {"k": "bnd", "d": dom["d"]}
+        pspace, prows = gen_prows(r, pspace, allow_unused=False)
+        entry = {"kind": "domain", "method": r.choice(("random", "random", "grid")) if len(prows) <= 1 else "random",
+                 "n": r.choice((1, 2, 3, 7, 16, 50, 120, 400))}
+        fault = gen_fault(r, seed, 0.7)
+        if fault is not None and r.random() < 0.6:
+            fault["kinds"] = sorted(set(fault["kinds"]) | {r.choice(("edge0", "edge1", "lattice", "half"))})
+    elif prop == "C10":
+        dom, pspace = gen_domain(r, rng, max_depth=2)
+        pspace, prows = gen_prows(r, pspace, allow_unused=False)
+        prows = prows[:1] if r.random() < 0.7 else prows
+        entry = gen_entry(r, rng, dom, [tuple(p) for p in pspace], prows, p_density=0.6)
+        fault = gen_fault(r, seed, 0.3)
+    else:
+        dom, pspace = gen_domain(r, rng)
+        pspace, prows = gen_prows(r, pspace)
+        entry = gen_entry(r, rng, dom, [tuple(p) for p in pspace], prows)
+        fault = gen_fault(r, seed, p_fault)
     return {"format": 1, "property": prop, "engine": "geosim", "seed": seed,
             "rng": H(seed, "rng"), "dom": dom, "pspace": pspace, "prows": prows,
-            "entry": entry, "fault": gen_fault(r, seed, p_fault)}
+            "entry": entry, "fault": fault}
